@@ -334,6 +334,24 @@ def enumerate_histories(ctx, groups):
     return table, tab, hist
 
 
+def printed_values(stdout, prefix):
+    """PrintT values starting with `prefix`, also when TLC wrapped them over several lines."""
+    out, buf, depth = [], None, 0
+    for line in stdout.splitlines():
+        if buf is None:
+            if not line.startswith(prefix):
+                continue
+            buf, depth = "", 0
+        buf += line.strip() + " "
+        depth += line.count("<<") - line.count(">>")
+        if depth <= 0:
+            out.append(tlc.parse_value(buf))
+            buf = None
+    if buf is not None:
+        raise MachineryError("unterminated value in TLC output: %r" % buf[:200])
+    return out
+
+
 def judge(ctx, label, tabpath, traces, repaired, batch=40000):
     """Returns {trace id: [[class, clause, step, feature], ...]} for the failing traces."""
     fails = {}
@@ -352,9 +370,12 @@ def judge(ctx, label, tabpath, traces, repaired, batch=40000):
         if res.distinct != expected:
             raise MachineryError("trace judge consumed %d states, expected %d" % (res.distinct, expected))
         ctx.add_tlc("trace-%s-%d Repaired=%s" % (label, b0 // batch, repaired), res)
-        for p in res.printed:
-            if p and p[0] == "FAIL":
-                fails[p[1]] = p[2]
+        nfail = 0
+        for p in printed_values(res.stdout, '<<"FAIL"'):
+            fails.setdefault(p[1], []).append(p[2:6])
+            nfail += 1
+        if nfail != res.stdout.count('"FAIL"'):
+            raise MachineryError("could not parse every FAIL line of the trace judge")
         os.remove(path)
     for tid, bad in fails.items():
         for b in bad:
